@@ -39,12 +39,14 @@ inductive Decision
   | ok | unauthenticated | permissionDenied | notFound | failedPrecondition | alreadyExists
   | crash          -- the handler panics (`projects.From` / `users.From` on a context without that value)
   | unimplemented  -- procedure the model does not know
+  | internal       -- the auth webhook answered with an unexpected status / could not be reached
   deriving DecidableEq, Repr, Inhabited
 
 def Decision.show : Decision → String
   | .ok => "ok" | .unauthenticated => "unauthenticated" | .permissionDenied => "permission_denied"
   | .notFound => "not_found" | .failedPrecondition => "failed_precondition"
   | .alreadyExists => "already_exists" | .crash => "crash" | .unimplemented => "unimplemented"
+  | .internal => "internal"
 
 inductive DocStatus | absent | live | removed
   deriving DecidableEq, Repr
@@ -569,5 +571,167 @@ def victimOf (cfg : Cfg) (svc : Svc) (proc : String) (c : Cred) (t : Target) : B
   match handlerOf svc proc with
   | none => false
   | some h => victimH cfg svc h c t
+
+/-! ### Auth webhook and its verdict cache (server/rpc/auth/auth.go, webhook.go)
+
+`auth.VerifyAccess` does nothing unless the request's project requires auth for the method
+(`prj.RequireAuth`: a webhook URL and the method are configured). Otherwise `verifyAccess`
+marshals `{token, method, attributes}` into `body`, builds
+`cacheKey := generateCacheKey(prj.PublicKey, body) = fmt.Sprintf("%s:auth:%s", publicKey, body)`,
+answers from `be.Cache.AuthWebhook` (an LRU with a TTL) when the key is present, and otherwise
+POSTs `body` to `prj.AuthWebhookURL` – the request's own project's webhook – and caches the
+answer under the same key unless it was 401 (an error is returned before caching).
+
+The machine below is generic in the types of projects `π`, bodies `β` and cache keys `κ`;
+`key` is a parameter so that the variant whose key omits the project can be stated. -/
+
+inductive Verdict
+  | allow    -- 200 {allowed: true}
+  | deny     -- 403 {allowed: false}
+  | unauth   -- 401 {allowed: false}
+  | error    -- any other status / transport error
+  deriving DecidableEq, Repr, Inhabited
+
+/-- `if status != http.StatusUnauthorized { cache.Add }`, reached only without an error -/
+def Verdict.cacheable : Verdict → Bool
+  | .allow | .deny => true
+  | _ => false
+
+/-- `handleWebhookResponse` -/
+def Verdict.denial : Verdict → Option Decision
+  | .allow => none
+  | .deny => some .permissionDenied
+  | .unauth => some .unauthenticated
+  | .error => some .internal
+
+structure WEntry (κ : Type) where
+  key : κ
+  verdict : Verdict
+  time : Nat      -- when the verdict was obtained from the webhook
+  deriving Repr
+
+structure Webhook (π β κ : Type) where
+  hook : π → Nat → β → Verdict   -- the webhook of project `p`, asked at time `t` about `body`
+  key : π → β → κ                 -- `generateCacheKey`
+  ttl : Nat
+
+section WebhookMachine
+variable {π β κ : Type} [DecidableEq κ]
+
+/-- `be.Cache.AuthWebhook.Get(cacheKey)`: an entry under that key that has not expired -/
+def Webhook.lookup (w : Webhook π β κ) (c : List (WEntry κ)) (k : κ) (t : Nat) : Option (WEntry κ) :=
+  c.find? (fun e => decide (e.key = k) && decide (t < e.time + w.ttl))
+
+/-- `verifyAccess`: (verdict, was the project's own webhook consulted, cache afterwards) -/
+def Webhook.verify (w : Webhook π β κ) (c : List (WEntry κ)) (p : π) (b : β) (t : Nat) :
+    Verdict × Bool × List (WEntry κ) :=
+  match w.lookup c (w.key p b) t with
+  | some e => (e.verdict, false, c)
+  | none =>
+    let v := w.hook p t b
+    (v, true, if v.cacheable then ⟨w.key p b, v, t⟩ :: c else c)
+
+/-- what happens to the cache: a request of project `p` with body `b` at time `t`, or the LRU
+dropping whatever entries it likes (capacity, `Purge`) -/
+inductive WOp (π β κ : Type)
+  | req (p : π) (b : β) (t : Nat)
+  | evict (keep : κ → Bool)
+
+/-- one answered request: who asked about what when, the verdict, and whether the project's own
+webhook was consulted for it (otherwise it came from the cache) -/
+structure WRec (π β : Type) where
+  proj : π
+  body : β
+  time : Nat
+  verdict : Verdict
+  consulted : Bool
+
+/-- run a sequence from a given cache; the log lists every request in order -/
+def Webhook.run (w : Webhook π β κ) :
+    List (WOp π β κ) → List (WEntry κ) → List (WRec π β)
+  | [], _ => []
+  | .req p b t :: ops, c =>
+    let r := w.verify c p b t
+    ⟨p, b, t, r.1, r.2.1⟩ :: w.run ops r.2.2
+  | .evict keep :: ops, c => w.run ops (c.filter (fun e => keep e.key))
+
+end WebhookMachine
+
+/-! #### The fixture's webhooks -/
+
+/-- tokens the `access` engine presents: none, one only A's webhook allows, one only B's
+webhook allows, one every webhook answers with an unexpected status -/
+inductive Token | none | ta | tb | terr
+  deriving DecidableEq, Repr, Inhabited
+
+/-- body of the webhook request: token, method (= procedure and which of its `VerifyAccess`
+calls), attributes (the names every project shares) -/
+structure Body where
+  token : Token
+  proc : String
+  idx : Nat
+  deriving DecidableEq, Repr
+
+/-- verdict of project `p`'s webhook in the fixture (does not change over time) -/
+def fixtureHook (p : Proj) (_t : Nat) (b : Body) : Verdict :=
+  match b.token with
+  | .none => .unauth
+  | .terr => .error
+  | .ta => if p = .A then .allow else .deny
+  | .tb => if p = .B then .allow else .deny
+
+/-- The code's cache key `"%s:auth:%s"` of the project's public key and the body, modelled as
+the pair (public keys are distinct random ids without `:`); tied to the source by
+`Props/C13.lean: webhook_cache_key_in_source`. -/
+def fixtureWebhook : Webhook Proj Body (Proj × Body) :=
+  { hook := fixtureHook, key := fun p b => (p, b), ttl := 1000000 }
+
+/-- auth state of the server: whether A and B have a webhook configured, the verdict cache, a clock -/
+structure AuthSt where
+  on : Bool := false
+  cache : List (WEntry (Proj × Body)) := []
+  now : Nat := 0
+
+def AuthSt.requiresAuth (a : AuthSt) (p : Proj) : Bool := a.on && (p = .A || p = .B)
+
+/-- `runGuards` with `auth.VerifyAccess` doing its work: the `idx`-th `verifyAccess` guard of
+the handler asks (cache, then the webhook of the resolved project). Returns the outcome, the
+auth state and how often the resolved project's own webhook was consulted. -/
+def runGuardsA (cfg : Cfg) (s : Store) (tok : Token) (proc : String) (r : Req) :
+    List Guard → Env → AuthSt → Nat → Nat → Except Decision Env × AuthSt × Nat
+  | [], e, a, _, n => (.ok e, a, n)
+  | .verifyAccess :: gs, e, a, idx, n =>
+    match e.proj with
+    | some p =>
+      if a.requiresAuth p then
+        let v := fixtureWebhook.verify a.cache p ⟨tok, proc, idx⟩ a.now
+        let a' := { a with cache := v.2.2 }
+        let n' := if v.2.1 then n + 1 else n
+        match v.1.denial with
+        | some d => (.error d, a', n')
+        | none => runGuardsA cfg s tok proc r gs e a' (idx + 1) n'
+      else runGuardsA cfg s tok proc r gs e a (idx + 1) n
+    | none => runGuardsA cfg s tok proc r gs e a (idx + 1) n
+  | g :: gs, e, a, idx, n =>
+    match evalGuard cfg s e r g with
+    | .error d => (.error d, a, n)
+    | .ok e' => runGuardsA cfg s tok proc r gs e' a idx n
+
+/-- one request with a token: (decision, store, auth state, consultations of the own webhook) -/
+def execA (cfg : Cfg) (s : Store) (svc : Svc) (proc : String) (h : Handler) (c : Cred) (tok : Token) (r : Req)
+    (a : AuthSt) : Decision × Store × AuthSt × Nat :=
+  match intercept cfg svc (h.scope = .exempt) c with
+  | .error d => (d, s, a, 0)
+  | .ok ctx =>
+    match enter cfg h.scope ctx r with
+    | .error d => (d, s, a, 0)
+    | .ok e =>
+      match runGuardsA cfg s tok proc r h.guards e a 0 0 with
+      | (.error d, a', n) => (d, s, a', n)
+      | (.ok e', a', n) => (.ok, h.effect.run cfg s e' r, a', n)
+
+/-- the own-ids request of home project `h` (for the webhook lines both A and B are "home") -/
+def homeReq (h : Proj) : Req :=
+  { client := .of h, attacher := .of h, docId := .of h, rev := .of h, session := .of h, project := .of h }
 
 end Yorkie.Access
